@@ -76,7 +76,7 @@ impl<BS: BlockSizes> BlockCipherEncClosure for Closure<'_, BS> {
             let (last, rest) = blocks.split_last_mut().unwrap();
             let (penultimate, _) = rest.split_last_mut().unwrap();
             core::mem::swap(penultimate, last);
-        } else {
+        } else if !tail.is_empty() {
             let last_block = blocks.get_out().last_mut().unwrap();
 
             let n = tail.len();
@@ -104,7 +104,7 @@ impl<BS: BlockSizes> BlockCipherDecClosure for Closure<'_, BS> {
             let (last, rest) = blocks.split_last_mut().unwrap();
             let (penultimate, _) = rest.split_last_mut().unwrap();
             core::mem::swap(penultimate, last);
-        } else {
+        } else if !tail.is_empty() {
             let last_block = blocks.get_out().last_mut().unwrap();
 
             let n = tail.len();
